@@ -1,68 +1,11 @@
-/* Harness for util/entropy.c (C11): /dev/urandom is a scripted byte stream (open/read/close wrapped). */
-#include <errno.h>
-#include <fcntl.h>
-#include <stdarg.h>
-#include <unistd.h>
+/*
+ * Harness for util/entropy.c (C11): /dev/urandom is a scripted byte stream (open/read/close wrapped, hfakeos.h).
+ *   osread <n> <stream hex> <script>     script: see hfakeos.h (c<k>, e, x/xi/xa = EIO/EINTR/EAGAIN, o, i)
+ * The caller's buffer is an exact-size heap block, so a byte stored before or after it is an ASan report.
+ */
 #include "hcommon.h"
+#include "hfakeos.h"
 #include "entropy.h"
-
-#define FAKEFD 777
-static uint8_t * stream; static size_t streamlen, streampos;
-static char * items[256]; static int nitems, itempos;
-static int open_fails, close_intr;
-static char calls[8192]; static size_t callslen;
-
-int __real_open(const char *, int, ...);
-ssize_t __real_read(int, void *, size_t);
-int __real_close(int);
-
-int
-__wrap_open(const char * path, int flags, ...)
-{
-	va_list ap; int mode;
-
-	if (strcmp(path, "/dev/urandom") == 0) {
-		if (open_fails) { errno = ENOENT; return (-1); }
-		return (FAKEFD);
-	}
-	va_start(ap, flags); mode = va_arg(ap, int); va_end(ap);
-	return (__real_open(path, flags, mode));
-}
-
-ssize_t
-__wrap_read(int fd, void * buf, size_t len)
-{
-	size_t k;
-	long ret;
-
-	if (fd != FAKEFD) return (__real_read(fd, buf, len));
-	if (itempos < nitems) {
-		char * it = items[itempos++];
-
-		if (it[0] == 'e') { ret = 0; goto done; }
-		if (it[0] == 'x') { errno = EIO; ret = -1; goto done; }
-		k = strtoull(it + 1, NULL, 10);
-	} else
-		k = len;
-	if (k > len) k = len;
-	if (k > streamlen - streampos) k = streamlen - streampos;
-	memcpy(buf, stream + streampos, k);
-	streampos += k;
-	ret = (long)k;
-done:
-	if (callslen + 48 < sizeof(calls))
-		callslen += (size_t)sprintf(calls + callslen, "%zu>%ld,", len, ret);
-	return (ret);
-}
-
-int
-__wrap_close(int fd)
-{
-
-	if (fd != FAKEFD) return (__real_close(fd));
-	if (close_intr) { close_intr = 0; errno = EINTR; return (-1); }
-	return (0);
-}
 
 int
 main(void)
@@ -73,25 +16,20 @@ main(void)
 			printf("case %s", hc_tok[1]);
 		} else if (hc_is("osread", 3)) {
 			size_t n = strtoull(hc_tok[1], NULL, 10);
-			uint8_t * out = malloc(n ? n : 1);	/* exact size: ASan sees overruns */
-			char * p;
+			uint8_t * out = malloc(n ? n : 1);	/* exact size: ASan sees overruns and underruns */
+			uint8_t * stream;
+			size_t streamlen;
 			int rc;
 
-			stream = hc_unhex(hc_tok[2], &streamlen); streampos = 0;
-			nitems = itempos = 0; open_fails = close_intr = 0; callslen = 0; calls[0] = 0;
-			if (strcmp(hc_tok[3], "-") != 0)
-				for (p = strtok(hc_tok[3], ","); p != NULL && nitems < 256; p = strtok(NULL, ",")) {
-					if (p[0] == 'o') open_fails = 1;
-					else if (p[0] == 'i') close_intr = 1;
-					else items[nitems++] = p;
-				}
+			stream = hc_unhex(hc_tok[2], &streamlen);
+			fo_load(stream, streamlen, hc_tok[3]);
 			memset(out, 0xa5, n);
 			rc = entropy_read(out, n);
 			if (rc == 0) {
 				printf("ok "); hc_puthex(out, n); printf(" | "); hc_puthex(out, n);
 			} else
 				printf("fail | -");
-			printf(" [%s]", calls);
+			printf(" [%s]", fo_calls);
 			free(out); free(stream);
 		} else
 			printf("bad-op");
